@@ -109,7 +109,8 @@ def build(w, V, K, it, sc):
 def install(w, K, ctxholder):
     def prep(world):
         K.install(world)
-        world.hooks["external_call"] = lambda it, full, a, k, n: ctxholder["ctx"]["external_call"](it, full, a, k, n)
+        world.hooks["external_call"] = lambda it, full, a, k, n: (ctxholder["ctx"]["external_call"](it, full, a, k, n)
+                                                                  if ctxholder.get("ctx") else MISSING)
 
         def open_hook(it, a, k, n):
             ctxholder["ctx"]["fs"].append("open")
